@@ -55,10 +55,10 @@ def cxx_flags(repo: Path = REPO) -> list[str]:
 
 
 def _prune(keep: str, kind: str) -> None:
-    # keep disk use bounded: at most 9 builds of each kind (a build is ~5 MB)
+    # keep disk use bounded: at most 25 builds of each kind (a build is ~5 MB); builds younger than an hour are never pruned
     ds = sorted((d for d in BUILD_ROOT.glob(f'{kind}-*') if d.is_dir() and d.name != keep),
                 key=lambda d: d.stat().st_mtime)
-    for d in ds[:-8]:
+    for d in [d for d in ds[:-24] if time.time() - d.stat().st_mtime > 3600]:
         shutil.rmtree(d, ignore_errors=True)
 
 
